@@ -39,5 +39,95 @@ theorem sp_formatNamedParams : ∀ (n : Nat) (fp : FmtParams) (k : Nat) (s : PSt
     tgo [ih, fpok_mk T E]
 
 
+set_option maxHeartbeats 1000000 in
+theorem sp_parseFormatStringOperator (env : Env) (n : Nat) (k : Nat) (s : PState) (hi : Inv T E k s) :
+    tri (El T E) (parseFormatStringOperator env n) s (Post T E k (fun r => Tin T E r.1)) := by
+  unfold parseFormatStringOperator
+  tsimp [hi.toks, hi.eof, tri_exceptMatch]
+  tgo [sp_formatNamedParams T E, fpok_tin T E, fpok_mk T E]
+
+theorem sp_parseTextValue (env : Env) (n : Nat) (k : Nat) (s : PState) (hi : Inv T E k s) :
+    tri (El T E) (parseTextValue env n) s (Post T E k (fun _ => True)) := by
+  unfold parseTextValue
+  tsimp [hi.toks, hi.eof]
+  tgo [sp_parseFormatStringOperator T E]
+
+theorem sp_poryswitchTextCases (env : Env) (i : Nat) : ∀ (n : Nat) (acc : List (String × String × String))
+    (k : Nat) (s : PState), Inv T E k s →
+    tri (El T E) (poryswitchTextCases env (T.getD i E) n acc) s (Post T E k (fun _ => True)) := by
+  intro n
+  induction n with
+  | zero => intros; rw [poryswitchTextCases]; tsimp
+  | succ n ih =>
+    intro acc k s hi
+    rw [poryswitchTextCases]
+    tsimp [hi.toks, hi.eof]
+    tgo [ih, sp_parseTextValue T E]
+
+theorem sp_parsePoryswitchTextStatement (env : Env) (n : Nat) (k : Nat) (s : PState) (hi : Inv T E k s) :
+    tri (El T E) (parsePoryswitchTextStatement env n) s (Post T E k (fun _ => True)) := by
+  unfold parsePoryswitchTextStatement
+  tsimp [hi.toks, hi.eof]
+  tgo [sp_parsePoryswitchHeader T E, sp_poryswitchTextCases T E]
+
+theorem sp_listBlock (env : Env) : ∀ n : Nat,
+    (∀ kind am acc k s, Inv T E k s →
+      tri (El T E) (parseListValue env kind am n acc) s (Post T E k (fun _ => True))) ∧
+    (∀ kind k s, Inv T E k s →
+      tri (El T E) (parsePoryswitchListStatement env kind n) s (Post T E k (fun _ => True))) ∧
+    (∀ kind i acc k s, Inv T E k s →
+      tri (El T E) (parsePoryswitchListCases env kind (T.getD i E) n acc) s (Post T E k (fun _ => True))) := by
+  intro n
+  induction n with
+  | zero =>
+    refine ⟨?_, ?_, ?_⟩
+    · intros; rw [parseListValue]; tsimp
+    · intros; rw [parsePoryswitchListStatement]; tsimp
+    · intros; rw [parsePoryswitchListCases]; tsimp
+  | succ n ih =>
+    obtain ⟨ih1, ih2, ih3⟩ := ih
+    refine ⟨?_, ?_, ?_⟩
+    · intro kind am acc k s hi
+      rw [parseListValue]
+      cases kind <;> tsimp [hi.toks, hi.eof] <;> tgo [ih1, ih2]
+    · intro kind k s hi
+      rw [parsePoryswitchListStatement]
+      tsimp [hi.toks, hi.eof]
+      tgo [ih3, sp_parsePoryswitchHeader T E]
+    · intro kind i acc k s hi
+      rw [parsePoryswitchListCases]
+      tsimp [hi.toks, hi.eof]
+      tgo [ih1, ih3]
+
+theorem sp_parseListValue (env : Env) (kind : ListKind) (am : Bool) (n : Nat) (acc : List Tok) (k : Nat)
+    (s : PState) (hi : Inv T E k s) :
+    tri (El T E) (parseListValue env kind am n acc) s (Post T E k (fun _ => True)) :=
+  (sp_listBlock T E env n).1 kind am acc k s hi
+
+theorem sp_parseMovesOperator (env : Env) (n : Nat) (k : Nat) (s : PState) (hi : Inv T E k s) :
+    tri (El T E) (parseMovesOperator env n) s (Post T E k (fun _ => True)) := by
+  unfold parseMovesOperator
+  tsimp [hi.toks, hi.eof]
+  tgo [sp_parseListValue T E]
+
+theorem sp_cmdArgsLoop (env : Env) (sn : String) (id : Nat) (i : Nat) : ∀ (n : Nat) (a : CmdAcc)
+    (k : Nat) (s : PState), Inv T E k s → ImpOK T E a.imp →
+    tri (El T E) (cmdArgsLoop env sn id (T.getD i E) n a) s (Post T E k (fun a => ImpOK T E a.imp)) := by
+  intro n
+  induction n with
+  | zero => intros; rw [cmdArgsLoop]; tsimp
+  | succ n ih =>
+    intro a k s hi ha
+    rw [cmdArgsLoop]
+    tsimp [hi.toks, hi.eof]
+    tgo [ih, sp_parseFormatStringOperator T E, sp_parseMovesOperator T E]
+
+theorem sp_parseCommandStatement (env : Env) (sn : String) (n : Nat) (k : Nat) (s : PState)
+    (hi : Inv T E k s) :
+    tri (El T E) (parseCommandStatement env sn n) s (Post T E k (fun r => ImpOK T E r.2)) := by
+  unfold parseCommandStatement
+  tsimp [hi.toks, hi.eof]
+  tgo [sp_cmdArgsLoop T E]
+
 end
 end Pory.Parser
